@@ -140,6 +140,50 @@ func checkC13(p *Prog, r *Report) {
 	// ---- FIRST-MATCH ----
 	checkFirstMatch(p, r, listMatches, ruleMatches, flagF, flagConsts)
 
+	// ---- EXACT-MATCH ----
+	r.Rule("C13/EXACT-MATCH", "(*filterRule).matches decides a plain-name rule by string equality of the rule's pattern with the entry's name or base name (not prefix/suffix/substring tests): every non-constant result is `pattern == name'` with name' the name parameter or filepath.Base of it", 1)
+	{
+		patF := p.Field(pkgSender, "filterRule", "pattern")
+		nameP := ruleMatches.Params[1]
+		n := 0
+		for _, b := range ruleMatches.Blocks {
+			ret, ok := lastInstr(b).(*ssa.Return)
+			if !ok {
+				continue
+			}
+			rv := retResults(ret)[0]
+			if _, isConst := rv.(*ssa.Const); isConst {
+				continue
+			}
+			n++
+			okEq := false
+			if bo, isB := rv.(*ssa.BinOp); isB && bo.Op == token.EQL {
+				for _, pr := range [][2]ssa.Value{{bo.X, bo.Y}, {bo.Y, bo.X}} {
+					if !isFieldLoad(pr[0], patF) {
+						continue
+					}
+					all := true
+					for _, leaf := range phiLeaves(pr[1]) {
+						if leaf == ssa.Value(nameP) {
+							continue
+						}
+						if c, isC := leaf.(*ssa.Call); isC && calleeName(c) == "path/filepath.Base" && c.Common().Args[0] == ssa.Value(nameP) {
+							continue
+						}
+						all = false
+					}
+					if all {
+						okEq = true
+					}
+				}
+			}
+			r.Cond(okEq, "C13/EXACT-MATCH", "filterRule.matches result", p.Pos(ret.Pos()), "the match result is not an equality of pattern and (base) name: entries other than the named ones would be filtered")
+		}
+		if n == 0 {
+			r.Bad("C13/EXACT-MATCH", "filterRule.matches result", p.Pos(ruleMatches.Pos()), "no comparison result returned")
+		}
+	}
+
 	// ---- PREFIX-STRIP ----
 	r.Rule("C13/PREFIX-STRIP", "in parseFilter the only string surgery on a rule line is strings.TrimPrefix(line, K) dominated by strings.HasPrefix(line, K)==true for the same constant K (the prefix tested is the prefix removed; character-set trims would eat leading '-', '+' or spaces of the name)", 2)
 	pf := anchorFunc(p, r, pkgSender, "", "parseFilter")
